@@ -24,7 +24,7 @@ EST_ROUTES = ["Tilt/quaternion", "Tilt/angles", "Tilt/rotmat", "Tilt/acc-only", 
               "QUEST", "Davenport", "FLAE/symbolic", "FLAE/eig", "FLAE/newton", "TRIAD/rotmat/NED", "TRIAD/quaternion/NED",
               "TRIAD/rotmat/ENU", "TRIAD/quaternion/ENU", "AQUA/am/NED", "AQUA/am/ENU", "AQUA/acc/NED", "OLEQ/NED", "OLEQ/ENU"]
 ROUTES = CONV_ROUTES + METRIC_ROUTES + EST_ROUTES
-REGIONS = {"rows:generic": 30, "rows:special": 30, "rows:one": 30, "metric:generic": 30, "metric:close": 30, "est:generic": 30, "est:one": 30, "est:scaled": 30}
+REGIONS = {"rows:generic": 30, "rows:special": 30, "rows:one": 30, "metric:generic": 30, "metric:close": 30, "metric:exact": 30, "est:generic": 30, "est:one": 30, "est:scaled": 30}
 PROBES = [("ahrs.common.quaternion", "QuaternionArray.to_DCM"), ("ahrs.common.quaternion", "QuaternionArray.from_DCM"),
           ("ahrs.common.quaternion", "QuaternionArray.from_rpy"), ("ahrs.common.quaternion", "QuaternionArray.to_angles"),
           ("ahrs.common.orientation", "hughes"), ("ahrs.common.orientation", "chiaverini"), ("ahrs.common.orientation", "q2R"),
@@ -36,7 +36,7 @@ PROBES = [("ahrs.common.quaternion", "QuaternionArray.to_DCM"), ("ahrs.common.qu
 REQUIRED_PROBES = ["tilt.Tilt._compute_all", "tilt.Tilt.estimate", "saam.SAAM._compute_all", "saam.SAAM.estimate", "flae.FLAE.estimate",
                    "quaternion.QuaternionArray.from_DCM", "orientation.hughes", "orientation.chiaverini"]
 RULE = ("rows cases: N in 1..8 quaternion / matrix / angle rows mixing Haar-generic rows with half-turns, near-identity (1e-9..1e-3), "
-        "near-pi, axis-in-coordinate-plane and identity rows; metric cases: row pairs at generic and small (1e-3..1e-1) relative angles; "
+        "near-pi, axis-in-coordinate-plane and identity rows; metric cases: row pairs at generic and small (1e-3..1e-1) relative angles and exact pairs (identical, antipodal, exactly orthogonal = half a turn apart, from small-integer quaternions); "
         "est cases: N in 1..6 accelerometer/magnetometer rows (random directions >= 5 deg from parallel, magnitudes over 5 decades, "
         "consistent poses), each estimator x method x representation x frame constructed on N rows vs estimate() per row, and the "
         "one-sample constructor vs estimate() with the same options; non-trivial = all")
@@ -87,10 +87,14 @@ def generate(rng, tier, shard, nshards):
         a, m = random_am(rng, N)
         yield Case("rows", reg, Q=Q, angles=ang, V=rng.standard_normal((N, 3)) * gens.logu(rng, 1e-2, 1e3), a=a, m=m)
     for i in range(n):
-        reg = ["metric:generic", "metric:close"][i % 2]
+        reg = ["metric:generic", "metric:close", "metric:exact"][i % 3]
         N = int(rng.integers(1, 7))
         Q1 = gens.unit(rng, N).reshape(N, 4)
-        if reg == "metric:close":
+        if reg == "metric:exact":      # exactly orthogonal (half a turn apart), identical and antipodal rows built from exact small-integer quaternions
+            E = np.array([[1, 0, 0, 0], [0, 1, 0, 0], [0, 0, 1, 0], [0, 0, 0, 1], [1, 1, 0, 0], [1, -1, 0, 0], [1, 1, 1, 1], [1, -1, 1, -1], [1, 1, -1, -1], [0, 1, 1, 0], [0, 1, -1, 0]], float)
+            idx = rng.integers(0, len(E), (N, 2))
+            Q1, Q2 = E[idx[:, 0]].copy(), E[idx[:, 1]].copy()
+        elif reg == "metric:close":
             Q2 = np.array([rq.qmul(q, rq.axang2q(gens.axis(rng), gens.logu(rng, 1e-3, 1e-1))) for q in Q1])
         else:
             Q2 = gens.unit(rng, N).reshape(N, 4)
